@@ -435,6 +435,7 @@ type op =
 | OSetAttrNested of z * z list list
 | OSetAttrSet of z * z list
 | OSetAttrDict of z * (z * z) list
+| OSetAttrDictOfLists of z * (z * z list) list
 | OReplaceSeries of z * z list
 
 val list_eqb : ('a1 -> 'a1 -> bool) -> 'a1 list -> 'a1 list -> bool
